@@ -85,6 +85,35 @@ package bpmn
 //@     invariant len(exclusion) == 0 ==> evlen == old(evlen)
 
 // ---------------------------------------------------------------------------
+// sequence_flow.go: resolving an end of a sequence flow is exactly one lookup in the flow's process and nothing else.
+//@ func (*SequenceFlow).resolveId
+//@   prop C01
+//@   modifies nothing
+//@   emits Call(code("schema|Element.FindBy"), sf.process)
+//@ func (*SequenceFlow).Source
+//@   prop C01
+//@   modifies nothing
+//@   emits Call(code("schema|Element.FindBy"), sf.process)
+//@ func (*SequenceFlow).Target
+//@   prop C01
+//@   modifies nothing
+//@   emits Call(code("schema|Element.FindBy"), sf.process)
+
+// ---------------------------------------------------------------------------
+// flow_wiring.go: a node's incoming / outgoing flows keep the order in which the node lists them (the exclusive and
+// inclusive gateways' "first true flow" is a position in that list): one lookup per listed flow, in list order, the
+// i-th lookup filling position i.
+//@ func sequenceFlows
+//@   prop C04 C01
+//@   requires process != nil && flows != nil
+//@   ensures [one-entry-per-listed-flow] err == nil ==> len(result) == len(*flows)
+//@   ensures [every-listed-flow-is-looked-up-on-its-own-in-list-order] err == nil ==>
+//@             count(Call, code("schema|Element.FindBy")) == old(count(Call, code("schema|Element.FindBy"))) + len(*flows)
+//@   loop 1 range result
+//@     invariant len(result) == len(*flows) && fresh(base(result)) && err == nil
+//@     invariant [position-i-is-filled-by-the-ith-lookup] count(Call, code("schema|Element.FindBy")) == old(count(Call, code("schema|Element.FindBy"))) + i
+
+// ---------------------------------------------------------------------------
 // gateway_parallel.go
 
 //@ spec func pgInv(gw *parallelGateway) bool =
